@@ -87,6 +87,21 @@ Theorem C17_wrapper_exact : forall c e parent top k r ty nl en items fmt d o nam
 Proof. exact wrapper_exact. Qed.
 Print Assumptions C17_wrapper_exact.
 
+(* the referenced schema's own default never reaches the referring property, through a bare $ref or through a wrapper *)
+Theorem C17_from_ref_default_from_parent : forall t name d,
+  tree_default (from_ref t name d) = d \/ tree_default (from_ref t name d) = None.
+Proof. exact from_ref_default_from_parent. Qed.
+Print Assumptions C17_from_ref_default_from_parent.
+Theorem C17_ref_target_default_dropped : forall c e parent top r name,
+  tree_default (norm c e parent top (SRef r) name) = None.
+Proof. exact ref_target_default_dropped. Qed.
+Print Assumptions C17_ref_target_default_dropped.
+Theorem C17_wrapper_target_default_dropped : forall c e parent top k r ty nl en items fmt o name,
+  g_wrapper ty nl None = true ->
+  tree_default (norm c e parent top (wrapper k r ty nl en items fmt None o) name) = None.
+Proof. exact wrapper_target_default_dropped. Qed.
+Print Assumptions C17_wrapper_target_default_dropped.
+
 Theorem C17_wrapper_default_refuted :
   exists e k r d name,
     g_wrapper TyAbsent false (Some d) = false /\
